@@ -374,6 +374,13 @@ class Sandbox:
         self.outer = os.path.realpath(tempfile.mkdtemp(prefix="c05-", dir=OTHER_FS if self.real_cross else SYS_TMP))
         # second top-level root: what tempfile.gettempdir() / $TMPDIR is while the code under test runs
         self.spool = os.path.realpath(tempfile.mkdtemp(prefix="c05-spool-", dir=SYS_TMP))
+        try:
+            self._populate()
+        except BaseException:
+            self.cleanup()      # never leave a half-built sandbox behind
+            raise
+
+    def _populate(self):
         p = self.outer
         for d in DEPTH:
             p = os.path.join(p, d)
